@@ -56,7 +56,7 @@ type LegacyScenario struct{}
 
 func (LegacyScenario) Name() string { return "legacy" }
 
-var legRIDs = []string{"test.m.1", "test.m.2", "test.c.1", "test.c.2"}
+var legRIDs = []string{"test.m.1", "test.m.2", "test.c.1", "test.c.2", "test.m.11", "test.c.11"}
 
 func genLegEvents(r *rand.Rand, coll bool, n int) []LegEvent {
 	var out []LegEvent
